@@ -37,12 +37,20 @@ RAISES = ("ValueError", "BaseBoom", "KeyboardInterrupt")
 OPS_PLAIN = ("start", "stop", "join", "is_running", "get", "pend", "status", "enter", "exit", "shutdown")
 
 
+class BodyError(Exception):
+    """what the body of a `with proxy:` block raises in the scripts (an ordinary Exception subclass)"""
+
+
 class BaseBoom(BaseException):
     """A BaseException that is not an Exception (the task thread catches BaseException)."""
 
 
 class InitBoom(Exception):
     pass
+
+
+BODY_EXC = {"BodyError": BodyError, "KeyError": KeyError, "KeyboardInterrupt": KeyboardInterrupt, "SystemExit": SystemExit,
+            "BaseBoom": BaseBoom}
 
 
 def gen_script(rng) -> dict:
@@ -143,12 +151,19 @@ def gen_history(rng, max_len: int, pool=None) -> list:
             return "exit"
         return "shutdown"
 
-    if shape < 0.15:      # context-manager form around a few ops
+    BODIES = [None, None, "BodyError", "KeyError", "KeyboardInterrupt", "SystemExit", "BaseBoom"]
+    if shape < 0.10:      # the real `with proxy:` statement around a few ops; the body may end by raising
+        hist.append("with_enter")
+        for _ in range(max(0, n - 2)):
+            op = rnd_op()
+            hist.append(op if op not in ("join", "enter", "exit") else "is_running")
+        hist.append(["with_exit", rng.choice(BODIES)])
+    elif shape < 0.15:    # the same through explicit __enter__ / __exit__ calls
         hist.append("enter")
         for _ in range(max(0, n - 2)):
             op = rnd_op()
             hist.append(op if op not in ("join",) else "is_running")
-        hist.append("exit")
+        hist.append(["exit_exc", rng.choice(BODIES[2:])] if rng.random() < 0.3 else "exit")
     elif shape < 0.30:    # the canonical life: start … stop join
         hist.append("start")
         for _ in range(max(0, n - 3)):
@@ -161,6 +176,10 @@ def gen_history(rng, max_len: int, pool=None) -> list:
     else:
         for _ in range(n):
             hist.append(rnd_op())
+        if hist and rng.random() < 0.15:      # a `with proxy:` block somewhere in the middle (also on a started / stopped task)
+            a = rng.randrange(len(hist))
+            b = rng.randrange(a, len(hist))
+            hist = hist[:a] + ["with_enter"] + hist[a:b + 1] + [["with_exit", rng.choice(BODIES)]] + hist[b + 1:]
     return hist
 
 
@@ -903,7 +922,23 @@ def run_case(case: dict) -> Obs:
             return None
         rec.mark("make", "ok")
         helpers = []
-        for i, op in enumerate(history):
+
+        def kind(op):
+            return op[0] if isinstance(op, (list, tuple)) else op
+
+        def chain_of(e):
+            """class names along __cause__ / __context__ of what was raised (what a caller can find out)"""
+            out, seen, todo = [], set(), [e]
+            while todo:
+                x = todo.pop()
+                if x is None or id(x) in seen:
+                    continue
+                seen.add(id(x))
+                out.append(type(x).__name__)
+                todo += [x.__cause__, x.__context__]
+            return out
+
+        def simple(i, op):
             obs.last_issued = i
             rec.mark("call", i, op)
             if op == "shutdown":
@@ -911,24 +946,104 @@ def run_case(case: dict) -> Obs:
                 # with the runner's operations
                 helpers.append(w.spawn(rec.thread.shutdown, "shutdown"))
                 rec.mark("ret", i, op, "ok", None)
-                continue
+                return
             try:
-                r = _do_op(p, op)
+                if kind(op) == "exit_exc":
+                    # QMI_RpcProxy.__exit__ handed the exception info of a failing `with` body (no real unwinding)
+                    e0 = BODY_EXC[op[1]]("scripted body failure")
+                    r = type(p).__exit__(p, type(e0), e0, None)
+                elif kind(op) in ("with_enter", "with_exit"):
+                    r = _do_op(p, "enter" if kind(op) == "with_enter" else "exit")      # unmatched marker: plain call
+                else:
+                    r = _do_op(p, op)
             except D.SchedAbort:
                 raise
             except BaseException as e:
                 if w.sched.aborting:      # once a run is being torn down threads run freely: nothing is an observation
                     raise D.SchedAbort()
+                rec.mark("chain", i, chain_of(e))
                 rec.mark("ret", i, op, "exc:" + type(e).__name__)
             else:
                 if w.sched.aborting:
                     raise D.SchedAbort()
                 rec.mark("ret", i, op, "ok", r)
+
+        def match(i):
+            depth = 0
+            for k in range(i, len(history)):
+                if kind(history[k]) == "with_enter":
+                    depth += 1
+                elif kind(history[k]) == "with_exit":
+                    depth -= 1
+                    if depth == 0:
+                        return k
+            return None
+
+        def with_block(i, j):
+            """a REAL `with proxy:` statement (QMI_RpcProxy.__enter__ / __exit__) around the operations i+1 … j-1;
+            the body then ends normally or by raising history[j][1]"""
+            obs.last_issued = i
+            rec.mark("call", i, history[i])
+            entered = False
+            try:
+                with p:
+                    entered = True
+                    if w.sched.aborting:
+                        raise D.SchedAbort()
+                    rec.mark("ret", i, history[i], "ok", None)
+                    run_range(i + 1, j)
+                    obs.last_issued = j
+                    rec.mark("call", j, history[j])
+                    body_exc = history[j][1] if isinstance(history[j], (list, tuple)) and len(history[j]) > 1 else None
+                    if body_exc:
+                        raise BODY_EXC[body_exc]("scripted failure of the with body")
+            except D.SchedAbort:
+                raise
+            except BaseException as e:
+                if w.sched.aborting:
+                    raise D.SchedAbort()
+                if not entered:
+                    rec.mark("chain", i, chain_of(e))
+                    rec.mark("ret", i, history[i], "exc:" + type(e).__name__)
+                    for k in range(i + 1, j + 1):          # neither the body nor __exit__ run
+                        rec.mark("ret", k, history[k], "skipped")
+                else:
+                    rec.mark("chain", j, chain_of(e))
+                    rec.mark("ret", j, history[j], "exc:" + type(e).__name__)
+            else:
+                if w.sched.aborting:
+                    raise D.SchedAbort()
+                rec.mark("ret", j, history[j], "ok", None)
+
+        def run_range(a, b):
+            k = a
+            while k < b:
+                if kind(history[k]) == "with_enter":
+                    j = match(k)
+                    if j is not None and j < b:
+                        with_block(k, j)
+                        k = j + 1
+                        continue
+                simple(k, history[k])
+                k += 1
+
+        run_range(0, len(history))
         for t in helpers:
             t.join()
         obs.last_issued = len(history)
         rec.mark("call", len(history), "release")
-        ctx.remove_rpc_object(p)
+        if case.get("release_unwinding"):
+            # the object is removed by a caller that is already unwinding (an exception is being handled)
+            try:
+                raise BODY_EXC[case["release_unwinding"]]("scripted failure before the removal")
+            except D.SchedAbort:
+                raise
+            except BaseException:
+                ctx.remove_rpc_object(p)
+        else:
+            ctx.remove_rpc_object(p)
+        if w.sched.aborting:
+            raise D.SchedAbort()
         rec.mark("ret", len(history), "release", "ok", None)
         return None
 
@@ -1021,10 +1136,22 @@ def oracle(case: dict, obs: Obs) -> list:
 
     # expand history: enter = start, exit = stop ; join, release = (stop ; join) unless joined
     def kind(op):
-        return op[0] if isinstance(op, (list, tuple)) else op
+        k = op[0] if isinstance(op, (list, tuple)) else op
+        # the real `with proxy:` statement: its two ends are a start and a stop ; join like the explicit calls
+        return {"with_enter": "enter", "with_exit": "exit", "exit_exc": "exit"}.get(k, k)
+
+    def body_exc(op):
+        """the exception the caller was already propagating when the exit ran (None: not unwinding)"""
+        if isinstance(op, (list, tuple)) and op[0] in ("with_exit", "exit_exc") and len(op) > 1:
+            return op[1]
+        return None
 
     n_hist = len(history)
     ops = list(history) + ["release"]
+    for i in list(result):
+        if result[i] == "skipped" and i < len(ops):
+            ops[i] = "skipped"              # inside a `with` whose __enter__ raised: never executed
+    chains = {m[1]: m[2] for _, m in marks if m[0] == "chain"}
 
     # --- run() at most once, only after start() ----------------------------------------------
     if len(run_enters) > 1:
@@ -1084,10 +1211,30 @@ def oracle(case: dict, obs: Obs) -> list:
         elif not stopped_before_start:
             bad.append(("join-returned-without-run-or-stop", f"op {i}: {r}"))
         want_exc = run_enters and outcome == "otherExc"
-        if want_exc and r != "exc:QMI_TaskRunException":
-            bad.append(("join-swallowed-exception", f"op {i}: run() raised, join gave {r}"))
-        if not want_exc and r != ("ok", None):
-            bad.append(("join-raised-without-exception", f"op {i}: outcome={outcome}, join gave {r}"))
+        b = body_exc(op)
+        if b is None:
+            if want_exc and r != "exc:QMI_TaskRunException":
+                bad.append(("join-swallowed-exception", f"op {i}: run() raised, join gave {r}"))
+            if not want_exc and r != ("ok", None):
+                bad.append(("join-raised-without-exception", f"op {i}: outcome={outcome}, join gave {r}"))
+        else:
+            # the caller is already unwinding with exception `b` (body of `with proxy:`): Python lets an exception of
+            # __exit__ propagate with the body's exception as its context.  The task-run error must be observable —
+            # raised, or on the __cause__/__context__ chain of what is raised — exactly when run() ended with an
+            # exception; otherwise the body's own exception comes out.
+            chain = chains.get(i, [])
+            seen_tre = "QMI_TaskRunException" in chain
+            explicit = isinstance(op, (list, tuple)) and op[0] == "exit_exc"      # __exit__ called by hand: nothing is unwinding
+            if want_exc and not seen_tre:
+                bad.append(("exit-while-unwinding-hid-task-failure",
+                            f"op {i}: run() raised, body raised {b}, caller got {r} chain={chain}"))
+            if not want_exc:
+                if seen_tre:
+                    bad.append(("join-raised-without-exception", f"op {i}: outcome={outcome}, body raised {b}, got {r} chain={chain}"))
+                elif explicit and r != ("ok", None):
+                    bad.append(("exit-raised-without-exception", f"op {i}: outcome={outcome}, got {r}"))
+                elif not explicit and r != "exc:" + b:
+                    bad.append(("with-body-exception-lost", f"op {i}: body raised {b}, caller got {r}"))
     # --- is_running ------------------------------------------------------------------------------------
     for i, op in enumerate(ops):
         if kind(op) != "is_running" or i not in result:
@@ -1233,7 +1380,7 @@ def oracle(case: dict, obs: Obs) -> list:
     if obs.deadlock is not None:
         i = obs.last_issued
         op = ops[i] if i is not None and i < len(ops) else None
-        k = kind(op) if op is not None else None
+        k = kind(op) if op is not None else None      # with_exit / exit_exc count as exit
         if k not in ("join", "exit", "release"):
             bad.append(("deadlock-outside-join", f"op {i} ({k}): {obs.deadlock[:160]}"))
         else:
@@ -1396,6 +1543,8 @@ class C10(Prop):
         pol = rng.random()
         case = {"script": script, "history": history, "seed": rng.randrange(1 << 30),
                 "policy": "weighted", "cp": None, "trace": rng.random() < 0.25}
+        if rng.random() < 0.1:       # the final remove_rpc_object is made by a caller that is already unwinding
+            case["release_unwinding"] = rng.choice(sorted(BODY_EXC))
         if pol < 0.35:
             case["policy"] = "pct"
             case["cp"] = rng.randrange(40, 260) if rng.random() < 0.7 else None
@@ -1532,6 +1681,22 @@ class C10(Prop):
         ]:
             fixed.append((script, hist))
 
+        # the real `with proxy:` statement: how run() ends × how the body ends × when the task gets to its end
+        ends = [["ret"], ["raise_stop"], ["raise", "ValueError"], ["raise", "KeyboardInterrupt"], ["raise", "BaseBoom"]]
+        bodies = [None, "BodyError", "KeyError", "KeyboardInterrupt", "SystemExit"]
+        timings = [[], [["wait_stop"]], [["upd"], ["until_stop", 2]]]
+        k = 0
+        for end in ends:
+            for b in bodies:
+                for tb in timings:
+                    inner = [[], ["is_running", ["set", 1]], [["set", 1], "stop"], ["join"] if not tb or tb[0] != ["wait_stop"] else ["pend"]][k % 4]
+                    k += 1
+                    fixed.append(({"init": "ok", "body": tb, "end": end}, ["with_enter"] + inner + [["with_exit", b]]))
+        for end in ends:                                     # __exit__ called by hand with exception info; with on a started task
+            fixed.append(({"init": "ok", "body": [], "end": end}, ["start", ["exit_exc", "BodyError"], "join"]))
+            fixed.append(({"init": "ok", "body": [["wait_stop"]], "end": end},
+                          ["start", "with_enter", "is_running", ["with_exit", "KeyError"], "stop", "join"]))
+
         def loop(period, policy, hooks=None, status=(), cost=(), bound=3):
             return {"kind": "loop", "init": "ok", "body": [], "end": ["loop"], "period": period, "policy": policy,
                     "hooks": hooks or {}, "status": list(status), "cost": list(cost), "bound": bound}
@@ -1553,8 +1718,11 @@ class C10(Prop):
             fixed.append((loop(2.0, pol, bound=50), ["start", ["set", 1], ["set", 2], "stop", "join"]))
         for script, hist in fixed:
             for s in range(ctx.scale(3, 12)):
-                cases.append({"script": script, "history": hist, "seed": ctx.rng.randrange(1 << 30),
-                              "policy": "weighted" if s % 2 == 0 else "pct", "cp": None, "trace": s % 3 == 0})
+                c = {"script": script, "history": hist, "seed": ctx.rng.randrange(1 << 30),
+                     "policy": "weighted" if s % 2 == 0 else "pct", "cp": None, "trace": s % 3 == 0}
+                if (len(cases) % 5) == 4:
+                    c["release_unwinding"] = ["BodyError", "KeyboardInterrupt", "SystemExit"][len(cases) % 3]
+                cases.append(c)
         # a post racing with update_settings(), line-level yield points: change-point sweep + random thread weights
         # values repeat: revert before the task looks (A,B,A), the value in effect / the initial value posted again, A,A
         race = {"init": "ok", "body": [["upd"], ["upd"], ["upd"]], "end": ["ret"]}
